@@ -652,7 +652,14 @@ func monitorHConc(c hxlib.Case, outs []string) (vs []hxlib.Violation) {
 				}
 				called := ci < len(o.calls) && o.calls[ci].hook == hi && o.calls[ci].ph == ph
 				if !hcApplies(h, o.spec, ph, getStored) {
-					continue // a call of it shows up as an unexpected call below
+					if called {
+						add("C14:hconc:called-not-matching:"+ph, fmt.Sprintf("g%d called %s of hook h%d although the hook does not declare the phase or its query does not match the operation", k, phaseName[ph], hi))
+						if o.calls[ci].veto {
+							vetoed = true
+						}
+						ci++
+					}
+					continue
 				}
 				cc, hasCall := cancelCall[hi]
 				cr, hasRet := cancelRet[hi]
@@ -674,7 +681,7 @@ func monitorHConc(c hxlib.Case, outs []string) (vs []hxlib.Violation) {
 		}
 		if ci < len(o.calls) {
 			cl := o.calls[ci]
-			add("C14:hconc:unexpected-hook-call", fmt.Sprintf("g%d called %s of hook h%d out of registration order, twice, after a veto, or although it does not declare the phase / match the operation", k, phaseName[cl.ph], cl.hook))
+			add("C14:hconc:unexpected-hook-call", fmt.Sprintf("g%d called %s of hook h%d out of registration order, twice, in a phase the operation does not have, or after a veto", k, phaseName[cl.ph], cl.hook))
 		}
 		want := "ok"
 		switch {
